@@ -330,3 +330,64 @@ theorem edgeFold_one (x : Int) : edgeFold 1 x = 0 := by
       subst this
       simp
 end Mahotas.C18
+
+namespace Mahotas.C18
+variable {K : Type} [Field K] [LinearOrder K] [IsStrictOrderedRing K]
+
+/-- inside the array every border rule is the identity -/
+theorem specPos_of_inside (m : Mode) : ∀ (shape : List Nat) (js : List Int), inside shape js = true →
+    specPos m shape js = some js := by
+  intro shape
+  induction shape with
+  | nil => intro js h; cases js <;> simp_all [inside, specPos]
+  | cons len ls ih =>
+    intro js h
+    cases js with
+    | nil => simp [inside] at h
+    | cons j js =>
+      simp only [inside, Bool.and_eq_true, decide_eq_true_eq] at h
+      have hb : borderSpec m j len = some j := by
+        rw [← fixOffset_eq_spec m j len (by omega)]
+        exact fixOffset_inside m j len h.1.1 h.1.2
+      simp only [specPos, hb, ih js h.2]
+
+/-- zero shift: every output position reads its own coordinates -/
+theorem coordsOf_zero_shift : ∀ (shape sh : List Nat) (p : List Int), inside shape p = true →
+    sh.length = shape.length →
+    coordsOf shape p ((sh.map fun _ => (0 : K)).map fun s => some (-s)) ((sh.map fun _ => (0 : K)).map fun _ => none)
+      = p.map fun (j : Int) => (j : K) := by
+  intro shape
+  induction shape with
+  | nil => intro sh p h _; cases p <;> cases sh <;> simp_all [coordsOf, inside]
+  | cons len ls ih =>
+    intro sh p h hl
+    cases p with
+    | nil => simp [inside] at h
+    | cons kk ks =>
+      cases sh with
+      | nil => simp at hl
+      | cons s ss =>
+        simp only [inside, Bool.and_eq_true, decide_eq_true_eq] at h
+        simp only [List.map_cons, coordsOf]
+        rw [ih ss ks h.2 (by simpa using hl)]
+        congr 1
+        simp only [coord, natCast_toNat kk h.1.1]
+        ring
+
+/-- unit zoom: every output position reads its own coordinates -/
+theorem coordsOf_unit_zoom : ∀ (shape : List Nat) (p : List Int), inside shape p = true →
+    coordsOf shape p (shape.map fun _ => (none : Option K))
+        ((shape.zip shape).map fun io => some (zoomFactor io.1 io.2 : K))
+      = p.map fun (j : Int) => (j : K) := by
+  intro shape
+  induction shape with
+  | nil => intro p h; cases p <;> simp_all [coordsOf, inside]
+  | cons len ls ih =>
+    intro p h
+    cases p with
+    | nil => simp [inside] at h
+    | cons kk ks =>
+      simp only [inside, Bool.and_eq_true, decide_eq_true_eq] at h
+      simp only [List.map_cons, List.zip_cons_cons, coordsOf]
+      rw [ih ks h.2, zoomFactor_unit len kk.toNat, natCast_toNat kk h.1.1]
+end Mahotas.C18
